@@ -1041,12 +1041,14 @@ Definition op_ok (stable : bool) (cur : option Manifest) (op : Operation) : bool
   end.
 
 (* ---------------------------------------------------------------- Dataset::validate, the manifest-only part *)
-(* FileFragment::validate, first loop: `let last = -1;` is never updated, so the test `*field_id <= last`
-   rejects exactly the negative ids (among them the tombstone -2); then every id must be new in the fragment *)
+(* FileFragment::validate, first loop: tombstoned fields (-2) are skipped (repo commit 77d5a8a); `let last = -1;`
+   is never updated, so the test `*field_id <= last` rejects exactly the other negative ids; then every id
+   must be new in the fragment *)
 Fixpoint validate_field_ids (fields seen : list Z) : option (list Z) :=
   match fields with
   | [] => Some seen
-  | x :: r => if (x <=? -1)%Z then None else if z_mem x seen then None else validate_field_ids r (x :: seen)
+  | x :: r => if (x =? TOMBSTONE)%Z then validate_field_ids r seen
+              else if (x <=? -1)%Z then None else if z_mem x seen then None else validate_field_ids r (x :: seen)
   end.
 Fixpoint validate_files (files : list DataFile) (seen : list Z) : bool :=
   match files with
@@ -1082,9 +1084,8 @@ Definition validate_dataset (m : Manifest) : bool :=
   && forallb (validate_fragment (m_schema m)) (m_fragments m)
   && nodup_n (map ix_uuid (m_indices m)) && indices_disjoint (m_indices m).
 
-(* Known finding (C05) validate_rejects_tombstoned_field: some data file still lists a tombstoned field *)
+(* some data file still lists a tombstoned field (regression: Dataset::validate used to reject these) *)
 Definition has_tombstone (f : Fragment) : bool := existsb (fun d => z_mem TOMBSTONE (df_fields d)) (fr_files f).
-Definition Known_C05_validate_rejects_tombstoned_field (m : Manifest) : bool := existsb has_tombstone (m_fragments m).
 
 (* Known finding (C05) stable_rowids_deferred_remap_unassigned_fragment_ids: a Rewrite that carries a
    fragment-reuse index (compaction with defer_index_remap) on a table with stable row ids while its new
@@ -1104,15 +1105,19 @@ Definition live_offsets (f : Fragment) : list N :=
   | Some p => filter (fun o => negb (n_mem o (fr_deleted f))) (n_range 0 p)
   | None => []
   end.
-(* (row id, row address) of every live row of the fragment, in position order; rows beyond the end of the
-   row id sequence (impossible in a well formed fragment) are dropped *)
+(* (row id, row address) of every live row of the fragment, in position order: walk the row id sequence with a
+   position counter; a position is live when it is < physical_rows and not in the deletion vector *)
+Fixpoint live_rows_from (frag_id phys : N) (deleted : list N) (pos : N) (ids : list N) : list (N * N) :=
+  match ids with
+  | [] => []
+  | rid :: r =>
+      (if (pos <? phys) && negb (n_mem pos deleted) then [(rid, row_address frag_id pos)] else [])
+      ++ live_rows_from frag_id phys deleted (pos + 1) r
+  end.
 Definition live_rows_of (f : Fragment) : list (N * N) :=
-  match fr_row_ids f with
-  | Some ids => flat_map (fun o => match nth_error ids (N.to_nat o) with
-                                   | Some rid => [(rid, row_address (fr_id f) o)]
-                                   | None => []
-                                   end) (live_offsets f)
-  | None => []
+  match fr_row_ids f, fr_phys f with
+  | Some ids, Some p => live_rows_from (fr_id f) p (fr_deleted f) 0 ids
+  | _, _ => []
   end.
 Definition live_rows (m : Manifest) : list (N * N) := flat_map live_rows_of (m_fragments m).
 Definition live_ids (m : Manifest) : list N := map fst (live_rows m).
